@@ -1,6 +1,7 @@
 SPECIFICATION Spec
 CONSTANTS
   Scen = "response"
+  MaxChunks = 3
   Gen = FALSE
   EmptyIsFlush = TRUE
 INVARIANT ConsumerExact
